@@ -686,3 +686,17 @@ Definition json_loads (s : list N) : jres :=
     | PErr => JErr
     | PFuel => JFuel
     end.
+
+(* ====================== query strings, minimal escaping ======================
+   A second inverse for the byte-preservation statement: only the four bytes
+   that have a meaning in a query string (& = + %) are percent-encoded, every
+   other byte - controls, spaces, whitespace-like and non-ASCII bytes included -
+   appears raw. *)
+Definition safe_min (b : N) : bool := negb ((b =? 38) || (b =? 61) || (b =? 43) || (b =? 37)).
+Definition qs_escape_min (b : list N) : list N := quote_from_bytes safe_min b.
+Fixpoint encode_pairs_with (esc : list N -> list N) (ps : list (list N * list N)) : list N :=
+  match ps with
+  | [] => []
+  | [(k, v)] => esc k ++ 61 :: esc v
+  | (k, v) :: ps' => esc k ++ 61 :: esc v ++ 38 :: encode_pairs_with esc ps'
+  end.
